@@ -95,6 +95,8 @@ func callWithin(e *entryPoint, c Case, deadline time.Duration) outcome {
 	inflightSet(c)
 	ch := make(chan outcome, 1)
 	t0 := time.Now()
+	capMode = c.Args["_cap"]
+	defer func() { capMode = "" }()
 	go func() {
 		defer func() {
 			if r := recover(); r != nil {
@@ -337,10 +339,28 @@ func (r *runner) n(base int) int {
 }
 
 func hx(b []byte) string { return hex.EncodeToString(b) }
+
+// capMode: how unhx allocates the []byte arguments of the case being executed (argument `_cap` of the case):
+// "" = the slice hex.DecodeString returns (spare capacity behind the bytes, as a buffer that was read into has),
+// "exact" = cap == len (what `[]byte(s)` of a small string, `make([]byte, n)` + copy, or a sub-slice ending at the
+// end of its array looks like: a slice expression that runs past len panics instead of silently reading on),
+// "roomy" = 64 spare bytes. Set by callWithin before the call's goroutine starts (calls are sequential).
+var capMode string
+
 func unhx(s string) []byte {
 	b, err := hex.DecodeString(s)
 	if err != nil {
 		panic("harness: bad hex in case: " + err.Error())
+	}
+	switch capMode {
+	case "exact":
+		out := make([]byte, len(b))
+		copy(out, b)
+		return out
+	case "roomy":
+		out := make([]byte, len(b), len(b)+64)
+		copy(out, b)
+		return out
 	}
 	return b
 }
